@@ -64,6 +64,11 @@ func (e DocumentError) Filename() string {
 	return e.file.Name()
 }
 
+// HasFile tells whether the file the error refers to is known.
+func (e DocumentError) HasFile() bool {
+	return e.file != nil
+}
+
 func (e DocumentError) Message() string {
 	return e.message
 }
